@@ -4,6 +4,7 @@ import (
 	"fmt"
 	"go/ast"
 	"go/token"
+	"sort"
 	"strings"
 )
 
@@ -196,8 +197,27 @@ func (w *psWalker) scanCall(c *ast.CallExpr) {
 	if psExpr(c.Fun) == "rand.Intn" && len(c.Args) == 1 {
 		w.emit("call", "rand_Intn", psExpr(c), "0 < "+w.term(c.Args[0], nil))
 	}
+	// a call through an in-package interface may reach any method of that name
+	if sel, ok := c.Fun.(*ast.SelectorExpr); ok && w.calleeKey(c) == "" {
+		if t := w.typeOf(sel.X); t.e != nil {
+			if _, isIface := p.underlying(t).e.(*ast.InterfaceType); isIface {
+				var ks []string
+				for k := range p.funcs {
+					parts := strings.Split(k, ".")
+					if len(parts) == 3 && parts[0] == t.pkg && parts[2] == sel.Sel.Name {
+						ks = append(ks, k)
+					}
+				}
+				sort.Strings(ks)
+				for _, k := range ks {
+					w.sh.enqueue(k)
+				}
+			}
+		}
+	}
 	// contract of the callee
 	if ck := w.calleeKey(c); ck != "" {
+		w.sh.enqueue(ck)
 		if ct, ok := psContracts[ck]; ok && ct.requires != "" {
 			fd := p.funcs[ck]
 			goal := w.instantiate(ct.requires, fd, c)
@@ -213,16 +233,6 @@ func (w *psWalker) scanCall(c *ast.CallExpr) {
 			}
 			w.emit("call", strings.SplitN(ck, ".", 2)[1], psExpr(c), goal, extra...)
 		}
-		if ck == "serf.MemberStatus.String" {
-			if sel, ok := c.Fun.(*ast.SelectorExpr); ok {
-				v := w.term(sel.X, nil)
-				var alts []string
-				for _, s := range statusValues(p) {
-					alts = append(alts, v+" = "+s)
-				}
-				w.emit("call", "MemberStatus_String", psExpr(c), strings.Join(alts, " ∨ "))
-			}
-		}
 	}
 	// arguments passed by address may be overwritten
 	for _, a := range c.Args {
@@ -230,6 +240,105 @@ func (w *psWalker) scanCall(c *ast.CallExpr) {
 			w.bump(key(u.X))
 		}
 	}
+}
+
+// sendSite: a send on a closed channel panics.  The obligation is `v_closed_<ch> ≠ 1` (1 = closed); its hypotheses are
+// (a) no close(…) of a channel of that name exists in the packages, or (b) the closed-flag protocol of
+// QueryResponse (Close sets r.closed under closeLock before closing; the sender tests r.closed under the same lock).
+func (w *psWalker) sendSite(x *ast.SendStmt) {
+	k := key(x.Chan)
+	if k == "" {
+		w.emit("send", psExpr(x.Chan), psExpr(x.Chan)+" <- …", w.opaque("t")+" ≠ 1")
+		return
+	}
+	last := k[strings.LastIndex(k, ".")+1:]
+	cv := w.lv("v", "closed."+k)
+	var extra []psHyp
+	closers := chanClosers(w.sh.p, last)
+	if len(closers) == 0 {
+		extra = append(extra, psHyp{prop: cv + " ≠ 1", tag: "inv: no close(…" + last + ") exists in the serf and coordinate packages (the channel is never closed by the library)"})
+	} else if sel, ok := x.Chan.(*ast.SelectorExpr); ok {
+		rk := key(sel.X)
+		if rk != "" && closedFlagProtocol(w.sh.p, w.fd, closers, psExpr(sel.X)) {
+			extra = append(extra, psHyp{prop: cv + " = 1 → " + w.lv("v", rk+".closed") + " = 1",
+				tag: "inv: every close(…" + last + ") is in a function that holds closeLock and sets .closed = true first; this send holds the same lock"})
+		}
+	}
+	w.emit("send", psExpr(x.Chan), psExpr(x.Chan)+" <- …", cv+" ≠ 1", extra...)
+}
+
+// chanClosers: the functions that close a channel whose (last) name is `name`.
+func chanClosers(p *psPkgs, name string) []*ast.FuncDecl {
+	var out []*ast.FuncDecl
+	var ks []string
+	for k := range p.funcs {
+		ks = append(ks, k)
+	}
+	sort.Strings(ks)
+	for _, k := range ks {
+		fd := p.funcs[k]
+		if fd.Body == nil {
+			continue
+		}
+		hit := false
+		ast.Inspect(fd.Body, func(n ast.Node) bool {
+			c, ok := n.(*ast.CallExpr)
+			if !ok || len(c.Args) != 1 || psExpr(c.Fun) != "close" {
+				return true
+			}
+			a := psExpr(c.Args[0])
+			if a == name || strings.HasSuffix(a, "."+name) {
+				hit = true
+			}
+			return true
+		})
+		if hit {
+			out = append(out, fd)
+		}
+	}
+	return out
+}
+
+// closedFlagProtocol: every closer locks <recv>.closeLock, assigns <recv>.closed = true and only then closes; the sender
+// (the walked function) locks <recvExpr>.closeLock before anything else.
+func closedFlagProtocol(p *psPkgs, sender *ast.FuncDecl, closers []*ast.FuncDecl, recvExpr string) bool {
+	locksFirst := func(fd *ast.FuncDecl, recv string) bool {
+		if len(fd.Body.List) == 0 {
+			return false
+		}
+		es, ok := fd.Body.List[0].(*ast.ExprStmt)
+		return ok && psExpr(es.X) == recv+".closeLock.Lock()"
+	}
+	if !locksFirst(sender, recvExpr) {
+		return false
+	}
+	for _, fd := range closers {
+		if fd.Recv == nil || len(fd.Recv.List) != 1 || len(fd.Recv.List[0].Names) != 1 {
+			return false
+		}
+		r := fd.Recv.List[0].Names[0].Name
+		if !locksFirst(fd, r) {
+			return false
+		}
+		setPos, closePos := token.NoPos, token.NoPos
+		ast.Inspect(fd.Body, func(n ast.Node) bool {
+			switch x := n.(type) {
+			case *ast.AssignStmt:
+				if len(x.Lhs) == 1 && len(x.Rhs) == 1 && psExpr(x.Lhs[0]) == r+".closed" && psExpr(x.Rhs[0]) == "true" && setPos == token.NoPos {
+					setPos = x.Pos()
+				}
+			case *ast.CallExpr:
+				if psExpr(x.Fun) == "close" && closePos == token.NoPos {
+					closePos = x.Pos()
+				}
+			}
+			return true
+		})
+		if setPos == token.NoPos || closePos == token.NoPos || setPos > closePos {
+			return false
+		}
+	}
+	return true
 }
 
 // statusValues: the constants MemberStatus.String accepts (its non-default cases).
@@ -451,6 +560,7 @@ func (w *psWalker) stmt(s ast.Stmt) (term bool) {
 	case *ast.SendStmt:
 		w.scan(x.Chan)
 		w.scan(x.Value)
+		w.sendSite(x)
 	case *ast.IncDecStmt:
 		w.scan(x.X)
 		if k := key(x.X); k != "" {
